@@ -92,6 +92,9 @@ def _resolved_type_argument(
             argument.__bound__ or Any,
         )
 
+    if isinstance(argument, type):
+        return argument  # not specialized generic class is a finished type
+
     if parameters := getattr(argument, "__parameters__", None):
         return argument[
             tuple(
